@@ -149,6 +149,29 @@ package scanner
 //@   ensures [appended-in-order] forall(i, n0 <= i && i < len(c.result), c.result[i] == old(sub.result[i-n0]))
 //@   ensures [wf] wf_common(c)
 
+// ---- C17: expiry during compaction ----
+//@ func (*worker).compactKey(key, rawKey, rev) (err)
+//@   props C17 C07
+//@   nosafety
+//@   requires w != nil && w.store != nil && w.metricCli != nil
+//@   modifies inferred:(*worker).compactKey
+//@ func (*worker).compactCurrent(iter, rawKey, rev) (err)
+//@   props C17 C07
+//@   nosafety
+//@   requires w != nil && w.store != nil && w.metricCli != nil
+//@   modifies inferred:(*worker).compactCurrent
+
+// the expiry branch may delete only Event records (keys in the events directory under the
+// prefix), and only records at or below the timeout revision
+//@ func (*worker).compactIfExpired(iter, rawKey, revision, value) (isExpired, err)
+//@   props C17
+//@   requires w != nil && w.store != nil && w.metricCli != nil && iter != nil
+//@   requires [index-values-hold-a-revision] revision == 0 ==> len(value) >= 8
+//@   requires [events-prefix-is-the-events-dir] len(w.eventsPrefix) == 0 || bytes_eq(w.eventsPrefix, events_dir)
+//@   modifies inferred:(*worker).compactIfExpired
+//@   ensures [only-event-records-expire] isExpired ==> has_prefix(rawKey, events_dir)
+//@   ensures [only-at-or-below-the-timeout-revision] isExpired ==> w.timeoutRevision != 0 && ite(revision == 0, be64_of(value) <= w.timeoutRevision, revision <= w.timeoutRevision)
+
 // ---- C08 ----
 
 //@ func (*scanner).checkCompactRace(ctx, revision, compact) (err)
@@ -173,7 +196,7 @@ package scanner
 
 //@ func newWorker(conf, store, coder, metricCli) (w)
 //@   props C08
-//@   ensures [fields] w != nil && fresh(w) && w.revision == conf.revision && w.compact == conf.compact && w.tso == conf.tso && w.timeoutRevision == conf.timeoutRevision && w.store == store
+//@   ensures [fields] w != nil && fresh(w) && w.revision == conf.revision && w.compact == conf.compact && w.tso == conf.tso && w.timeoutRevision == conf.timeoutRevision && w.store == store && w.eventsPrefix == conf.eventsPrefix
 
 //@ func (*scanner).scan$1(idx)
 //@   props C08
